@@ -7,6 +7,7 @@ import (
 	"strings"
 
 	"github.com/cockroachdb/redact"
+	"github.com/cockroachdb/redact/internal/buffer"
 	"github.com/cockroachdb/redact/verifharness/lib"
 )
 
@@ -38,6 +39,8 @@ var bdAlphabet = []bdOp{
 	// a pre-redacted operand as a caller can make one (a lone closing marker): not a redactable, but Reset and Take still
 	// have to leave an object that behaves like a new one (F11: Take left the envelope flag set)
 	{"PR", "\u203a"},
+	// unsafe data that starts with a run of line feeds (the escaper moves the opening marker behind the run)
+	{"U", "\n\n\nzed"},
 }
 
 func bdApplyWrite(sb *redact.StringBuilder, o bdOp) {
@@ -51,6 +54,16 @@ func bdApplyWrite(sb *redact.StringBuilder, o bdOp) {
 	case "PR":
 		sb.Print(redact.RedactableString(o.P))
 	}
+}
+
+// usesRaw: the history hands the builder a pre-redacted operand made by the caller (not a redactable: outside C01 / C03)
+func usesRaw(ops []bdOp) bool {
+	for _, o := range ops {
+		if o.O == "PR" {
+			return true
+		}
+	}
+	return false
 }
 
 func judgeBuilder(rep *lib.Report, k bdCase) {
@@ -139,6 +152,18 @@ func judgeBuilder(rep *lib.Report, k bdCase) {
 			bdApplyWrite(&fresh, w)
 		}
 		want := fresh.RedactableString()
+		if (rep.Property == "C01" || rep.Property == "C03") && !usesRaw(k.Ops) {
+			// the same histories under C01 / C03: whatever was observed in between, what the builder shows is a
+			// well-formed redactable no envelope of which spans a line feed
+			if !lib.WellFormed([]byte(got)) {
+				rep.Violate("builder:illformed", fmt.Sprintf("after %s the builder shows %q", desc(i), got), k)
+				return
+			}
+			if !lib.LineSafe([]byte(got)) {
+				rep.Violate("builder:linespan", fmt.Sprintf("after %s the builder shows %q", desc(i), got), k)
+				return
+			}
+		}
 		if got != want {
 			rep.Violate("builder:not-like-new", fmt.Sprintf("after %s the builder shows %q, a new builder given the writes since the last Reset/Take shows %q", desc(i), got, want), k)
 			return
@@ -161,12 +186,63 @@ func judgeBuilder(rep *lib.Report, k bdCase) {
 	rep.Nontrivial(desc(len(k.Ops) - 1))
 }
 
+// manualBufferAgreement (C13 on ManualBuffer): whatever was written -- in the raw modes too, where the content is the
+// caller's business -- the accessors agree with each other and with Take: Len = len(RedactableString),
+// RedactableBytes = RedactableString, String = that without its markers, and Take returns what the accessors showed.
+func manualBufferAgreement(rep *lib.Report) {
+	frags := []string{"", "a", "a\xe2", "\xe2\x80", "\u2039x\u203a\xc3", "x\n", "\u2039", "\xf0\x9f"}
+	modes := []buffer.OutputMode{buffer.UnsafeEscaped, buffer.SafeEscaped, buffer.SafeRaw, buffer.PreRedactable}
+	n := 0
+	for _, m1 := range modes {
+		for _, f1 := range frags {
+			for _, m2 := range modes {
+				for _, f2 := range []string{"", "b", "\xa9", "\n"} {
+					for _, write2 := range []bool{false, true} {
+						if !write2 && f2 != "" {
+							continue
+						}
+						var b redact.ManualBuffer
+						b.SetMode(m1)
+						b.WriteString(f1)
+						b.SetMode(m2)
+						if write2 {
+							b.WriteString(f2)
+						}
+						kase := map[string]interface{}{"kind": "manual-buffer", "m1": int(m1), "f1": f1, "m2": int(m2), "f2": f2, "write2": write2}
+						l := b.Len()
+						rs := b.RedactableString()
+						rb := string(b.RedactableBytes())
+						str := b.String()
+						l2 := b.Len()
+						tk := b.TakeRedactableString()
+						n++
+						desc := fmt.Sprintf("SetMode(%d); Write(%q); SetMode(%d); write2=%v(%q)", m1, f1, m2, write2, f2)
+						switch {
+						case l != len(rs) || l2 != l:
+							rep.Violate("buffer:len", fmt.Sprintf("%s: Len()=%d (again %d) but RedactableString %q has %d bytes", desc, l, l2, rs, len(rs)), kase)
+						case rb != string(rs):
+							rep.Violate("buffer:rs-rb", fmt.Sprintf("%s: RedactableString %q != RedactableBytes %q", desc, rs, rb), kase)
+						case str != rs.StripMarkers():
+							rep.Violate("buffer:string", fmt.Sprintf("%s: String() %q is not RedactableString %q without its markers", desc, str, rs), kase)
+						case tk != rs:
+							rep.Violate("buffer:accessor", fmt.Sprintf("%s: the accessors show %q, TakeRedactableString returns %q", desc, rs, tk), kase)
+						}
+					}
+				}
+			}
+		}
+	}
+	rep.AddEval(int64(n))
+	rep.Count("manual_buffer_agreement_histories", n)
+}
+
 func builderDrive(args []string) {
 	fs := flag.NewFlagSet("builder-drive", flag.ExitOnError)
 	prop := fs.String("prop", "C13", "")
 	maxLen := fs.Int("len", 4, "")
 	fs.Parse(args)
 	rep := lib.NewReport(*prop, "builder-drive")
+	manualBufferAgreement(rep)
 	var gen func(prefix []bdOp, d int, emit func(bdCase))
 	gen = func(prefix []bdOp, d int, emit func(bdCase)) {
 		if len(prefix) > 0 {
